@@ -24,3 +24,29 @@ func crcModel(fr *frame, bs []*Term) value {
 	r.crcApps = append(r.crcApps, crcApp{args: bs, res: res})
 	return res
 }
+
+// xxhModel: xxhash.Sum64 as an uninterpreted function per input length. With harness parameter
+// hashInjective=1 the engine adds, for every pair of applications in a run, "different input
+// => different hash" (inputs of different lengths included): 2^-64 collisions are outside the
+// claim, which is what "injective modulo hash collisions" means.
+func xxhModel(fr *frame, bs []*Term) value {
+	r := fr.run()
+	res := ufBytes(fr, "xxh64", 64, bs).(*Term)
+	if r.cfg.Params["hashInjective"] != 1 {
+		return res
+	}
+	for _, a := range r.xxhApps {
+		if a.res == res {
+			continue
+		}
+		if len(a.args) != len(bs) {
+			r.addPC(r.st.Not(r.st.Eq(a.res, res)))
+			continue
+		}
+		same := bytesEq(r.st, a.args, bs)
+		r.addPC(r.st.Or(same, r.st.Not(r.st.Eq(a.res, res))))
+	}
+	r.xxhApps = append(r.xxhApps, crcApp{args: bs, res: res})
+	return res
+}
+
